@@ -132,6 +132,10 @@ def run_script(sc, sudachipy, dic=None, point=None, pretoks=None):
         if t["projection"] is not None:
             kw["projection"] = t["projection"]
         toks.append((dic.create(sudachipy.SplitMode(t["mode"]), **kw), t))
+    if pretoks is None and any(o["op"] == "pretok" for o in sc["ops"]):
+        # sequential scripts: one pre-tokenizer object with and one without a handler, used many times
+        install_tokenizers_standin()
+        pretoks = (dic.pre_tokenizer(mode="C", handler=lambda i, s_, ml: [m.surface() for m in ml]), dic.pre_tokenizer(mode="C"))
     slots = [None] * sc["n_slots"]      # (list, fill id, text)
     handed_out = [[] for _ in range(sc["n_slots"])]
     # input-sharing groups of live list objects (Morpheme.split results share their parent's input): when a
